@@ -148,6 +148,11 @@ def judge_module(ck, c, classify_module):
         else:
             ck.violation("ill-scoped program compiled: modules (the model says %s)" % mk, dict(rep, answer=sql[:300]))
         return
+    if impl_rejects and mc.site == "value":
+        want = {"OErr:EUnknown": ("err:unknown",), "OErr:EAmbiguous": ("err:ambiguous",), "OErr:ENotAValue": ("err:expected", "err:not-a-value")}.get(mk)
+        if want and c["impl"] not in want:
+            ck.violation("modules: rejected, but not for the reason the model gives (%s vs %s)" % (c["impl"], mk), dict(rep, answer=str(a)[:300]))
+            return
     if not impl_rejects:
         if mc.site == "value":
             if "4242" not in sql:
